@@ -7,9 +7,12 @@ import VhostModel.Lemmas.Worker
 
 `Model.Worker` is the small-step system of the worker thread (`wait → woken → [ready-check] → readKick →
 dispatch`), the control thread (`send m`, then the segments `stateChange → [ready] → epollUpdate → [drop] → reply`
-of SET_VRING_ENABLE 0/1, RESET_DEVICE, GET_VRING_BASE, SET_VRING_KICK) and the guest (`kick d`), with atomic
+of SET_VRING_ENABLE 0/1, RESET_DEVICE, GET_VRING_BASE, SET_VRING_KICK with a fresh descriptor (`restart`) and
+SET_VRING_KICK with the no-descriptor flag (`nofd`)) and the guest (`kick d`), with atomic
 steps = code segments between hold points; `Cfg.pinned` is the code as pinned, `Cfg.repaired` has
-`fix-c12-lost-kick`, `fix-c12-stale-eagain`, `fix-c12-stopped-dispatch`.  A *schedule* is any list of labels
+`fix-c12-lost-kick`, `fix-c12-stale-eagain`, `fix-c12-stopped-dispatch`; `Cfg.nofdMutant` is the repaired code with
+the guard of `set_vring_kick` weakened from `vring_needs_init` (`!ready && kick.is_some()`) to `!ready` — a mutation,
+not a state of the tree, kept to show what the guard is for.  A *schedule* is any list of labels
 accepted by `step` from `init cfg` (a started, enabled ring with descriptor 0 registered).  `Spec.KickDelivery`
 states P1 (`NoDispatchAfterReply`) and P2 (`NoLostWakeup`) on the history the run produces.
 
@@ -27,7 +30,12 @@ NoLostWakeup history` do **not** hold.  Proved instead:
   reports `enabled`: the handler is entered after the reply;
 * `stale_event_reads_new_fd_counterexample` (pinned) — an event returned for the previous kick descriptor is served
   after stop/restart by reading the *new* descriptor, whose counter is 0: `EAGAIN`, the worker thread ends;
-* each of the last three is shown to be removed by its repair (`…_repaired`).
+* each of the last three is shown to be removed by its repair (`…_repaired`);
+* `nofd_kick_marks_ready_counterexample` (mutated guard, otherwise repaired) — a descriptor-less SET_VRING_KICK after
+  GET_VRING_BASE sets `ready` again while the ring has no kick descriptor; an event reported before the stop then
+  passes the ready-check *after* both replies and the handler is entered in the forbidden period although no call
+  had been granted before the stop (`rdStale = chkStale = false`: not the known window).  With the real guard the
+  same messages leave `ready` alone (`nofd_kick_marks_ready_counterexample_repaired`).
 
 ## What does hold, for ALL schedules (invariants by induction over the label list)
 
@@ -36,8 +44,13 @@ NoLostWakeup history` do **not** hold.  Proved instead:
   lies in the forbidden period of a SET_VRING_ENABLE(0)/RESET_DEVICE.  Equivalently
   (`dispatch_after_disable_reply_only_through_window`): every handler entry in such a period is one whose grant
   was overtaken by the state change — the check→dispatch window is the *only* way to violate P1 for disable/reset;
-* `no_dispatch_after_stop_partial` — with `fix-c12-stopped-dispatch`: likewise for GET_VRING_BASE with the
-  ready-check in place of `readKick` (`chkStale`);
+* `no_dispatch_after_stop_partial` — with `fix-c12-stopped-dispatch` and the real guard of `set_vring_kick`
+  (`nofdStarts = false`): likewise for GET_VRING_BASE with the ready-check in place of `readKick` (`chkStale`);
+  `dispatch_after_stop_reply_only_through_window` is the "only way" form;
+* `stopnf_no_dispatch_after_stop_partial` — the same, spelt out for descriptor-less SET_VRING_KICKs: after the reply of
+  a GET_VRING_BASE, however many `nofd` messages (or anything else that is not the begin of a restart) follow, a
+  handler entry is one whose ready-check preceded the stop (`forbS_open_until_restart`: such messages do not close the
+  forbidden period);
 * `no_lost_kick_partial` — any configuration: a wake-up is consumed without a handler call only if a disabling
   state change landed between `woken` and `readKick`, or the worker was woken while the unregistration that follows
   such a state change was still pending (ghost flag `clean = false`); so a run in which that never happens loses
@@ -140,7 +153,8 @@ example : (run (init Cfg.pinned) [.kick 0, .w, .w, .w, .w, .send .disable, .c, .
 /-- **P1, stop half, partial** (needs `fix-c12-stopped-dispatch`): for every schedule in which each handler entry's
 ready-check came after the last stopping state change before it, no handler entry follows the reply of GET_VRING_BASE
 before the restarting SET_VRING_KICK begins. -/
-theorem no_dispatch_after_stop_partial (cfg : Cfg) (hcfg : cfg.fixStopped = true) (s : St) (h : Reach cfg s)
+theorem no_dispatch_after_stop_partial (cfg : Cfg) (hcfg : cfg.fixStopped = true) (hn : cfg.nofdStarts = false)
+    (s : St) (h : Reach cfg s)
     (hside : ∀ fd fs rs cs, GRec.disp fd fs rs cs ∈ s.glog → cs = false) :
     ∀ pre post, s.trace = pre ++ Ev.dispatch :: post → (period pre).forbS = false := by
   intro pre post hsplit
@@ -150,7 +164,7 @@ theorem no_dispatch_after_stop_partial (cfg : Cfg) (hcfg : cfg.fixStopped = true
   | false => rfl
   | true =>
     rw [hf] at hm
-    have h1 := hinv.b.g _ true rs cs hm (by rw [hlink.cfg_eq]; exact hcfg) rfl
+    have h1 := (hinv.b (by rw [hlink.cfg_eq]; exact hn)).g _ true rs cs hm (by rw [hlink.cfg_eq]; exact hcfg) rfl
     have h2 := hside _ _ rs cs hm
     rw [h1] at h2; cases h2
 
@@ -158,12 +172,90 @@ example : (run (init Cfg.repaired) [.kick 0, .w, .send .stop, .c, .c, .c, .c, .w
     (fun s => (s.glog, dispatchAfterReply s.trace, s.wpc)) = some ([], false, .wait) := by decide
 
 /-- both halves together: P1 for the schedules that avoid both windows -/
-theorem no_dispatch_after_reply_partial_full (cfg : Cfg) (hcfg : cfg.fixStopped = true) (s : St) (h : Reach cfg s)
+theorem no_dispatch_after_reply_partial_full (cfg : Cfg) (hcfg : cfg.fixStopped = true) (hn : cfg.nofdStarts = false)
+    (s : St) (h : Reach cfg s)
     (hside : ∀ fd fs rs cs, GRec.disp fd fs rs cs ∈ s.glog → rs = false ∧ cs = false) :
     NoDispatchAfterReply s.trace := by
   intro pre post hsplit
   exact ⟨no_dispatch_after_reply_partial cfg s h (fun fd fs rs cs hm => (hside fd fs rs cs hm).1) pre post hsplit,
-    no_dispatch_after_stop_partial cfg hcfg s h (fun fd fs rs cs hm => (hside fd fs rs cs hm).2) pre post hsplit⟩
+    no_dispatch_after_stop_partial cfg hcfg hn s h (fun fd fs rs cs hm => (hside fd fs rs cs hm).2) pre post hsplit⟩
+
+/-! ### descriptor-less SET_VRING_KICK (scenario `stopnf`) -/
+
+/-- Every handler entry in the forbidden period of a GET_VRING_BASE is one whose ready-check was overtaken by the
+stopping state change (repaired dispatch path, real guard of `set_vring_kick`): the known window is the only way,
+whatever messages — descriptor-less SET_VRING_KICKs included — the schedule contains. -/
+theorem dispatch_after_stop_reply_only_through_window (cfg : Cfg) (hcfg : cfg.fixStopped = true)
+    (hn : cfg.nofdStarts = false) (s : St) (h : Reach cfg s)
+    (fd rs cs : Bool) (hm : GRec.disp fd true rs cs ∈ s.glog) : cs = true := by
+  obtain ⟨hinv, hlink⟩ := reach_inv h
+  exact (hinv.b (by rw [hlink.cfg_eq]; exact hn)).g fd true rs cs hm (by rw [hlink.cfg_eq]; exact hcfg) rfl
+
+theorem forbS_next_of_ne_restart (p : Period) (e : Ev) (hp : p.forbS = true) (he : e ≠ .start .restart) :
+    (p.next e).forbS = true := by
+  cases e with
+  | start m => cases m <;> simp_all [Period.next]
+  | reply m => cases m <;> simp [Period.next, CMsg.disables, hp]
+  | _ => simpa [Period.next] using hp
+
+theorem forbS_foldl_of_no_restart (mid : List Ev) (p : Period) (hp : p.forbS = true)
+    (h : ∀ e, e ∈ mid → e ≠ .start .restart) : (mid.foldl Period.next p).forbS = true := by
+  induction mid generalizing p with
+  | nil => simpa using hp
+  | cons e mid ih =>
+    simp only [List.foldl_cons]
+    exact ih _ (forbS_next_of_ne_restart p e hp (h e (by simp))) (fun e' he' => h e' (by simp [he']))
+
+/-- The forbidden period opened by the reply of a GET_VRING_BASE stays open until a restart *begins*: no other event —
+in particular neither the begin nor the reply of a descriptor-less SET_VRING_KICK — closes it. -/
+theorem forbS_open_until_restart (pre1 mid : List Ev) (h : ∀ e, e ∈ mid → e ≠ .start .restart) :
+    (period (pre1 ++ Ev.reply .stop :: mid)).forbS = true := by
+  unfold period
+  rw [List.foldl_append, List.foldl_cons]
+  exact forbS_foldl_of_no_restart mid _ (by simp [Period.next, CMsg.disables]) h
+
+/-- **P1 for scenario `stopnf`, partial.**  Repaired dispatch path and the real guard of `set_vring_kick`: for every
+schedule in which each handler entry's ready-check came after the last stopping state change before it, no handler entry
+follows the reply of a GET_VRING_BASE unless a SET_VRING_KICK *with a descriptor* began in between — descriptor-less
+SET_VRING_KICKs (begun, answered, any number of them) do not re-admit the handler. -/
+theorem stopnf_no_dispatch_after_stop_partial (cfg : Cfg) (hcfg : cfg.fixStopped = true) (hn : cfg.nofdStarts = false)
+    (s : St) (h : Reach cfg s)
+    (hside : ∀ fd fs rs cs, GRec.disp fd fs rs cs ∈ s.glog → cs = false)
+    (pre1 mid post : List Ev) (hsplit : s.trace = (pre1 ++ Ev.reply .stop :: mid) ++ Ev.dispatch :: post) :
+    ∃ e, e ∈ mid ∧ e = Ev.start .restart := by
+  have hno := no_dispatch_after_stop_partial cfg hcfg hn s h hside _ post hsplit
+  by_cases hex : ∃ e, e ∈ mid ∧ e = Ev.start .restart
+  · exact hex
+  · have : ∀ e, e ∈ mid → e ≠ Ev.start .restart := fun e he heq => hex ⟨e, he, heq⟩
+    rw [forbS_open_until_restart pre1 mid this] at hno
+    cases hno
+
+def schedNofd : List Lbl := [.kick 0, .w, .send .stop, .c, .c, .c, .c, .send .nofd, .c, .c, .c, .w, .w, .w]
+def schedNofdMutant : List Lbl := [.kick 0, .w, .send .stop, .c, .c, .c, .c, .send .nofd, .c, .c, .c, .c, .w, .w, .w]
+
+/-- the hypotheses are satisfiable: the stop/no-descriptor chain on the repaired code, the event reported before the stop
+is dropped at the ready-check; a later restart and kick are served (one handler entry, outside every period) -/
+example : (run (init Cfg.repaired) (schedNofd ++ [.send .restart, .c, .c, .c, .c, .kick 1, .w, .w, .w, .w])).map
+    (fun s => (s.glog, dispatchAfterReply s.trace, s.trace)) =
+    some ([.disp false false false false], false,
+      [.kick 0, .start .stop, .reply .stop, .start .nofd, .reply .nofd, .start .restart, .reply .restart, .kick 1,
+       .consumed true, .dispatch]) := by decide
+
+/-- With the guard of `set_vring_kick` mutated to `!ready`, P1 is false in a new way: worker woken by the ring's event,
+GET_VRING_BASE answered, descriptor-less SET_VRING_KICK answered (it set `ready`), then ready-check, `read_kick` (no
+descriptor: reports `enabled`) and the handler entry — inside the forbidden period of the stop, with a ready-check and a
+grant that both came *after* the stop (`rdStale = chkStale = false`): not the check→dispatch window. -/
+theorem nofd_kick_marks_ready_counterexample :
+    (run (init Cfg.nofdMutant) schedNofdMutant).map (fun s => (dispatchAfterReply s.trace, s.glog, s.ready, s.kick)) =
+      some (true, [.disp false true false false], true, none) ∧
+    (run (init Cfg.nofdMutant) schedNofdMutant).map (fun s => s.trace) =
+      some [.kick 0, .start .stop, .reply .stop, .start .nofd, .reply .nofd, .dispatch] := by decide
+
+/-- with the real guard (`vring_needs_init`) the descriptor-less message leaves the ring stopped and the stale event is
+dropped at the ready-check -/
+theorem nofd_kick_marks_ready_counterexample_repaired :
+    (run (init Cfg.repaired) schedNofd).map (fun s => (dispatchAfterReply s.trace, s.glog, s.ready, s.kick, s.wpc)) =
+      some (false, [], false, none, .wait) := by decide
 
 /-- A wake-up consumed without a handler call is always one that was not `clean`: a disabling state change landed
 between `woken` and `readKick`, or the worker was woken while the unregistration after such a change was pending. -/
